@@ -794,7 +794,7 @@ def generate(rng, tier, outdir):
             items.append(["g", "rzz", [fr(Fraction([1e-4, 2.0 ** -13, 0.75][int(rng.integers(0, 3))]))], [1, 0]])
         elif k2 == 2:
             items.append(["g", "cx", [], [0, 1]])
-        N = ["inf", "inf", [5000, 1], [1000, 1], [4999, 1]][int(rng.integers(0, 5))]
+        N = ["inf", "inf", "inf", [5000, 1], [1000, 1], [4999, 1]][int(rng.integers(0, 6))]
         d = dict(route="pp", nq=2, labels=[tagged("A"), tagged("B")], mut=[], obs=[str(rng.choice(["ZZ", "XZ", "ZI"]))], N=N,
                  seed=int(rng.integers(0, 2 ** 31 - 1)), items=items)
         jc, info = emit(w, d, "valid")
